@@ -1,6 +1,6 @@
 (* C11 — property theorems only.  Each is closed by `exact` of a lemma of C11_Proofs.v / C11_LoudsProofs.v. *)
 From Coq Require Import List NArith Bool.
-From Dae Require Import C11_Spec C11_Model C11_Louds C11_Proofs C11_LoudsProofs C11_BitlistProofs C11_PackedProofs C11_Layer3.
+From Dae Require Import C11_Spec C11_Model C11_Louds C11_Proofs C11_LoudsProofs C11_BitlistProofs C11_PackedProofs C11_Layer3 C11_RegexProofs.
 From Dae.gen Require Import C11_Extracted.
 Import ListNotations.
 Open Scope N_scope.
@@ -191,3 +191,41 @@ Proof. exact matcher_packed_nonvacuous. Qed.
 
 Example C11_matcher_packed_size_nonvacuous : sets_size_ok ex_sets.
 Proof. exact ex_sets_size_ok. Qed.
+
+(* Stage routing.  AddSet routes every pattern by its written kind and by nothing else: after any sequence
+   of AddSet calls that compiled, for every bit index the trie keys come from the full/suffix sets attached
+   to it, the automaton's keywords from its keyword sets, and the regexp list is exactly the written regex
+   patterns of its regex sets, in order.  (The harness reports these three counts per index after the last
+   AddSet and every run compares them with this model: a regex handed to the keyword automaton, or a
+   keyword compiled as a regex, breaks the tie even where answers happen to agree.) *)
+Theorem C11_stage_routing : forall rx_ok sets,
+  sets_ok rx_ok sets = true ->
+  let s := add_sets valid_domain_chars rx_ok sets in
+  err s = false
+  /\ (forall i, to_trie s i = at_idx trie_keys sets i)
+  /\ (forall i, to_ac s i = at_idx kw_pats sets i)
+  /\ (forall i, regexps s i = at_idx rx_pats sets i).
+Proof. exact stage_routing. Qed.
+Print Assumptions C11_stage_routing.
+
+(* The regex bit: when only regex sets are attached to index i, bit i of the answer is set iff SOME regex
+   of SOME of those sets matches the lower-cased, dot-stripped name per the regexp oracle — for every
+   collection of sets (the other indices may carry sets of any kind), every name over the alphabet. *)
+Theorem C11_regex_bit : forall rx_ok rx sets raw i,
+  kw_nonempty sets = true -> name_ok raw = true -> sets_ok rx_ok sets = true ->
+  (forall x, In x sets -> ps_idx x = i -> ps_kind x = KRegex) ->
+  exists b : bool,
+    model_answer rx_ok rx sets [raw] [i] = Some [if b then [i] else []]
+    /\ (b = true <-> exists x p, In x sets /\ ps_idx x = i /\ In p (ps_pats x) /\ rx p (normalize raw) = true).
+Proof. exact regex_bit. Qed.
+Print Assumptions C11_regex_bit.
+
+Example C11_regex_bit_nonvacuous :
+  let lit := [108;111;99;97;108;104;111;115;116] in
+  let pat := [94] ++ lit ++ [36] in
+  let rx := fun p n => str_eqb p pat && str_eqb n lit in
+  let sets := [(65, KRegex, [pat]); (64, KKeyword, [[111;99;97]]); (1, KFull, [lit])] in
+  model_answer (fun _ => true) rx sets
+    [lit; [109;121;46] ++ lit ++ [46;108;97;110]; [76;79;67;65;76;72;79;83;84;46]] [65; 64; 1]
+  = Some [[65; 64; 1]; [64]; [65; 64; 1]].
+Proof. exact regex_bit_nonvacuous. Qed.
